@@ -250,12 +250,16 @@ def run_script_shard(args):
 # ---------------------------------------------------------------------------------------
 # (b) incremental tracking solver
 
+from pysmt.typing import INT as INT_T  # noqa: E402
+
 FORMS = ("a", "na", "b")
 SOLVER_EVENTS = ([("add", f) for f in FORMS] + [("push", 1), ("push", 2), ("pop", 1), ("pop", 2), ("reset",),
                  ("solve",), ("solve_lit", "nb"), ("solve_nonlit", "a|b"), ("is_sat", "b"), ("is_valid", "a"),
-                 ("is_unsat", "na"), ("read",)])
+                 ("is_unsat", "na"), ("read",), ("is_sat_bad", "type"), ("is_sat_bad", "refused"),
+                 ("add_bad", "refused")])
 SOLVER_EVENTS_QUICK = ([("add", "a"), ("add", "na"), ("push", 1), ("push", 2), ("pop", 1), ("pop", 2), ("reset",),
-                        ("solve",), ("solve_nonlit", "a|b"), ("is_sat", "b"), ("is_valid", "a"), ("read",)])
+                        ("solve",), ("solve_nonlit", "a|b"), ("is_sat", "b"), ("is_valid", "a"), ("read",), ("is_sat_bad", "type"),
+                        ("is_sat_bad", "refused")])
 
 
 def _forms(env):
@@ -280,6 +284,9 @@ def run_solver_history(hist):
     try:
         F = _forms(env)
         solver = BruteSolver(env)
+        m_int = env.formula_manager.Plus(env.formula_manager.Symbol("c16i", INT_T), env.formula_manager.Int(1))
+        refused = env.formula_manager.Symbol("c16refused")
+        solver.raise_on = set(getattr(solver, "raise_on", ())) | {refused}
         levels = [[]]     # reference model: names
         viol = None
         obs = None
@@ -323,6 +330,21 @@ def run_solver_history(hist):
                     obs = "%s=%s" % (k, r)
                     if r != want:
                         viol = ("verdict", "%s(%s) returned %r, brute force says %r" % (k, ev[1], r, want))
+                elif k in ("is_sat_bad", "add_bad"):
+                    # a call the back-end refuses while the formula is being asserted: it raises and the
+                    # live assertions (checked below in every state) are those of before
+                    arg = m_int if ev[1] == "type" else refused
+                    try:
+                        if k == "is_sat_bad":
+                            solver.is_sat(arg)
+                        else:
+                            solver.add_assertion(arg)
+                    except NativeError:
+                        raise
+                    except Exception as e:
+                        obs = "%s:%s" % (k, type(e).__name__)
+                    else:
+                        viol = ("accepted", "%s(%s) did not raise" % (k, ev[1]))
                 elif k == "read":
                     got = list(solver.assertions)
                     exp = [F[n] for n in live]
